@@ -457,7 +457,10 @@ def step_dict(ctx, g, h, sh, rng):
             "contains": (lambda: k in d, lambda: k in s), "len": (lambda: len(d), lambda: len(s)),
             "keys": (lambda: list(d.keys()), lambda: sorted(s.keys())),
             "items": (lambda: [(a, en(b)) for a, b in d.items()], lambda: sorted(s.items())),
-            "eq": (lambda: d == {a: E(b) for a, b in s.items()}, lambda: True),
+            "eq": (lambda: (d == {a: E(b) for a, b in s.items()}, d == {a: E(b) for a, b in sorted(s.items(), reverse=True)},
+                            {a: E(b) for a, b in sorted(s.items(), reverse=True)} == d, d != {a: E(b) for a, b in sorted(s.items(), reverse=True)},
+                            d == {a: E(b) for a, b in list(s.items())[:-1]} if s else False),
+                   lambda: (True, True, True, False, False)),
         }
         fi, fs = fns[m]
         ri, rs = call(g, fi), call(g, fs)
